@@ -235,7 +235,14 @@ def array_ufunc(ufunc, method, inputs, kwargs):
             raise Unsupported('multiple outputs')
         out = out[0]
     if method == '__call__':
-        return ufunc_call(ufunc, inputs, out, where, kwargs)
+        r = ufunc_call(ufunc, inputs, out, where, kwargs)
+        if out is None and isinstance(r, SArr) and r.ndim == 2 and any(type(x).__name__ == 'SymMatrix' for x in inputs) \
+                and type(r).__name__ != 'SymMatrix':
+            from .arr import SymMatrix
+            r2 = r.view(SymMatrix)
+            r2.ldtype = r.ldtype
+            return r2
+        return r
     if method == 'reduce':
         from . import funcs
         return funcs.ufunc_reduce(ufunc, inputs[0], out=out, where=where, **kwargs)
